@@ -32,6 +32,18 @@ CLAIMED = {
         "Real arithmetic. The penalised-likelihood monotonicity clause (C05_map_means_monotone in DESIGN.md) is not proved yet: partial. Known finding D3 is reported as KNOWN-FINDING, any other deviation is a VIOLATION.",
         "§6 C05",
     ),
+    "C06": (
+        "Lean 4 theorems: Lloyd descent (argmin step + weighted-least-squares decomposition on lists), centroid = cluster mean, additivity over row blocks, criterion = distortion for every chunking, emLoop_spec stopping rule; Float model vs implementation for e_step / one fit iteration (NumPy, Dask, from the real initialisation) and the loop replayed on recorded criterion trajectories (exact)",
+        "Proof: one k-means iteration never increases the sum (mean) of squared distances to the nearest centroid, every centroid is the mean of the samples nearest to its predecessor, the reported criterion is the mean squared distance for the entering centroids for every list of row blocks, the iteration is chunking-independent, and fit stops by the stated rule. Tie: K correspondence of e_step and one iteration, O correspondence of the stop index incl. exact boundary thresholds.",
+        "Real arithmetic; dask_ml k_init not modelled (initial centroids are an input, obtained from the real initialize); ties and empty clusters are outside the descent clause (empty clusters are C13's subject).",
+        "§6 C06",
+    ),
+    "C20": (
+        "Lean 4 theorems: distances are sums of squared differences (cdist and Dask forms equal, >= 0), argminFin returns the first nearest centroid, weights are assigned fractions summing to one, variances equal the biased cluster variance for every chunking and every offset (shift invariance), GMM init exact; Float model vs implementation for transform/predict/variances-and-weights/GMM init on NumPy, Dask and single samples",
+        "Proof over the reals for all K, D, centroids, data and chunkings; the float clause (large offsets) is checked by an always-on search with tolerance relative to the spread.",
+        "Real arithmetic; ties excluded as in the property; catastrophic cancellation is a float notion: only searched (it found D20, fixed).",
+        "§6 C20",
+    ),
 }
 
 NOT_YET = "check not built yet in this round (see DESIGN.md §8 order of work); not claimed"
